@@ -341,3 +341,48 @@ def _getattr_cases():
 
 
 contract('bycycle.objs.fit.Bycycle.__getattr__', cases=_getattr_cases(), modifies=[])
+
+
+# ------------------------------------------------------------------------------------------------ BycycleGroup.recompute_edges (C14)
+@form('edges_of')
+def f_edges_of(E, node):
+    """edges_of(model, reduction): the model after Bycycle.recompute_edges(reduction) (reduction may be None)"""
+    m, red = [E.eval(a) for a in node.args]
+    has = z3.BoolVal(red is not None)
+    rv = to_real(lift(red)) if red is not None else z3.RealVal(0)
+    return _opq(G.BYC_EDGES(m.t, has, rv))
+
+
+def _group_edges_cases():
+    out = []
+    for nd, grid in ((2, ('grid', 1, False, 'list')), (3, ('grid', 2, False, 'list'))):
+        for lbl, rt in (('None', 'none'), ('number', REAL)):
+            attrs = {'models': grid, 'sigs': ('grid', nd - 1, True), 'n_dims': ('const', nd)}
+            if nd == 2:
+                req = ["len(self.models) == len(self.sigs)"]
+                ens = ["len(self.models) == len(self.sigs)",
+                       "forall(i, 0 <= i < len(self.sigs), self.models[i] == edges_of(old(self.models)[i], reduction))"]
+                loops = {1: dict(index='k', mutates=['self.models'], invariant=[
+                    "len(self.models) == len(self.sigs)",
+                    "forall(i, 0 <= i < k, self.models[i] == edges_of(old(self.models)[i], reduction))",
+                    "forall(i, k <= i < len(self.sigs), self.models[i] == old(self.models)[i])"])}
+            else:
+                N0, N1 = "self.sigs.shape[0]", "self.sigs.shape[1]"
+                req = ["len(self.models) == %s" % N0, "forall(i, 0 <= i < %s, len(self.models[i]) == %s)" % (N0, N1)]
+                E_ = "edges_of(old(self.models)[i][j], reduction)"
+                ens = ["forall((i, j), 0 <= i < %s and 0 <= j < %s, self.models[i][j] == %s)" % (N0, N1, E_)]
+                loops = {1: dict(index='p', mutates=['self.models'], invariant=[
+                             "forall((i, j), 0 <= i < p and 0 <= j < %s, self.models[i][j] == %s)" % (N1, E_),
+                             "forall((i, j), p <= i < %s and 0 <= j < %s, self.models[i][j] == old(self.models)[i][j])" % (N0, N1)]),
+                         2: dict(index='q', mutates=['self.models'], invariant=[
+                             "forall((i, j), 0 <= i < dim0 and 0 <= j < %s, self.models[i][j] == %s)" % (N1, E_),
+                             "forall((i, j), dim0 < i < %s and 0 <= j < %s, self.models[i][j] == old(self.models)[i][j])" % (N0, N1),
+                             "forall(j, 0 <= j < q, self.models[dim0][j] == %s)" % E_.replace('[i]', '[dim0]'),
+                             "forall(j, q <= j < %s, self.models[dim0][j] == old(self.models)[dim0][j])" % N1])}
+            out.append(dict(label='%dd,reduction=%s' % (nd, lbl),
+                            params={'self': ('obj', 'bycycle.objs.fit.BycycleGroup', attrs), 'reduction': rt},
+                            requires=req, ensures=ens, loops=loops))
+    return out
+
+
+contract('bycycle.objs.fit.BycycleGroup.recompute_edges', cases=_group_edges_cases(), modifies=['self', 'self.models'])
